@@ -527,6 +527,19 @@ def gen_leaf():
     out = ["/- REGENERATED on every run by harness/extract.py: leaf decision functions translated from the Python AST of /repo. -/",
            "import TealerModel.Syntax", "import TealerModel.OSet", "import TealerModel.Generated.Consts", "namespace Tealer.Generated", "",
            "structure GFeeValue where", "  isUnknown : Bool", "  value : Nat", "deriving DecidableEq, Repr, Inhabited", ""]
+    # `structure GFeeValue ... deriving DecidableEq` above is the dataclass FeeValue with FIELD-WISE equality; the worklists of
+    # generic.py decide "did this block's value change" with `!=` on these values, so the equality is part of the translation
+    try:
+        import dataclasses
+        fv = fee_field.FeeValue
+        flds = [(f.name, f.compare) for f in dataclasses.fields(fv)]
+        params_ = getattr(fv, '__dataclass_params__', None)
+        if flds != [('is_unknown', True), ('value', True)] or params_ is None or not params_.eq:
+            errors.append(f"FeeValue: fields / comparison flags {flds} (eq={getattr(params_, 'eq', None)}): equality is not the field-wise one of the translation")
+        elif not (fv(True, 5) != fv(False, 5) and fv(False, 5) != fv(False, 6) and fv(True, 5) == fv(True, 5) and fv(False, 7) == fv(False, 7)):
+            errors.append("FeeValue: == / != do not behave field-wise")
+    except Exception as e:  # noqa
+        errors.append(f"FeeValue: {type(e).__name__}: {e}")
     tr = FeeTranslator()
     for name, lean_name, params in (('_union', 'feeUnion', '(a b : GFeeValue) : GFeeValue'),
                                     ('_intersection', 'feeInter', '(a b : GFeeValue) : GFeeValue'),
